@@ -88,7 +88,7 @@ def render_program(prog):
     used_helpers = []
     for s in sites:
         if s.get("place") == "helper":
-            ops = {s["op"]} if s["op"] != "getitem" else {e[1] for e in s["events"]}
+            ops = {s["op"]} if s["op"] != "getitem" else {e[1] for e in s["events"] if e[1] != "access"}
             for o in ops:
                 key = (o, s.get("style", "assert"))
                 if key not in used_helpers:
@@ -148,6 +148,9 @@ def _render_site(i, s, ev, site_line, base):
     def ev_expr(e, S):
         if op == "getitem":
             k, subop, x = e
+            if subop == "access":
+                # the sub-snapshot is looked up but not compared
+                return f"({S}[{_X(k)}], True)[1]"
             return cmp_expr(subop, _X(x), f"{S}[{_X(k)}]", rev)
         return cmp_expr(op, _X(e), S, rev)
 
@@ -187,7 +190,7 @@ def _render_site(i, s, ev, site_line, base):
         S = f"(lambda: {S})()"
     if len(ev) == 1 and not s.get("force_loop"):
         site_line[i] = base + len(out)
-        if place == "helper":
+        if place == "helper" and not (op == "getitem" and ev[0][1] == "access"):
             e = ev[0]
             if op == "getitem":
                 k, subop, x = e
@@ -481,6 +484,12 @@ def site_with_prev(draw, tier="quick", ops=("eq", "le", "ge", "in", "getitem"), 
                         gv.build(nk) != gv.build(e[0]) for e in events):
                     kv.append([nk, draw(gv.hashable_leaves(tier))])
             pd = ["dict", kv]
+            if draw(st.integers(0, 2)) == 0:
+                # a key of the previous value that is only looked up (an optional field that is not compared)
+                idle = [k for k, _v in kv if all(gv.build(k) != gv.build(e[0]) for e in events)]
+                if idle:
+                    events = list(events)
+                    events.insert(draw(st.integers(0, len(events))), [draw(st.sampled_from(idle)), "access", ["none"]])
     s = {"op": op, "events": events, "place": place, "style": style, "rev": False,
          "prev_desc": pd, "prev": None if pd is None else text(pd)}
     if op in ("eq", "le", "ge") and place != "helper":
